@@ -569,6 +569,27 @@ def register(I):
         I.write_cell(r.key, r.path, umap(lambda c: StringV(c.items + tuple(add)), cur), st)
         return ()
 
+    @reg("String::insert", "String::insert_str")
+    def string_insert(I, st, args, info):
+        """insert a char / &str at a byte offset; an offset that is no character boundary panics"""
+        r = args[0]
+        cur = I.read_ref(r, st)
+        if not isinstance(cur, StringV):
+            raise Unsupported("String::insert on %r" % (cur,))
+        items = tuple(cur.items)
+        add = (args[2],) if info.path.last() == "insert" else tuple(as_str_items(I, args[2], st))
+        bounds, bad = char_boundaries(I, st, items, args[1])
+        outs = []
+        for g, k in bounds:
+            s2 = st if g is True else st.fork(g)
+            I.write_cell(r.key, r.path, StringV(items[:k] + add + items[k:]), s2)
+            outs.append((s2, ()))
+        if bad is not False and (bad is True or I.feasible(st.pc, bad)):
+            outs.append((st.fork(bad) if bad is not True else st, Panic("assertion failed: self.is_char_boundary(idx)", "alloc::string::String::insert")))
+        if len(outs) == 1 and outs[0][0] is st and outs[0][1] == ():
+            return ()
+        return outs
+
     @reg("String::push")
     def push_ch(I, st, args, info):
         r = args[0]
